@@ -72,6 +72,7 @@ def feature_set(rng):
 
 
 def check_case(acc, case, text, origin):
+    """-> the disagreement tag (None when REF and the real parser agree)"""
     tag, a, b, r = D.compare(case, text)
     acc.evaluations += 1
     if tag == 'ref-budget':
@@ -92,9 +93,9 @@ def check_case(acc, case, text, origin):
     else:
         acc.count('rejected')
     if tag is None:
-        return
-    if tag == 'ast' and r.triggers:
-        sig = 'ast/trigger:' + '+'.join(sorted(r.triggers))
+        return None
+    if tag == 'ast' and 'open-list-rule-value' in r.triggers:
+        sig = 'ast/trigger:open-list-rule-value'
         acc.violation(sig, f'model vs documented semantics ({tag}): grammar {L.grammar_text(case.g).strip()!r} '
                            f'input {text!r} REF={a} TATSU={b}',
                       D.witness(case.g, case.start, text, a, b, r, origin=origin))
@@ -109,6 +110,7 @@ def check_case(acc, case, text, origin):
                        f'input {t2!r} REF={a2} TATSU={b2}',
                   D.witness(g2, case.start, t2, a2, b2, r2, origin=origin,
                             original={'grammar_text': L.grammar_text(case.g), 'text': text}))
+    return tag
 
 
 def run_shard(desc, acc):
@@ -138,8 +140,13 @@ def run_random(desc, acc):
             if route == 'text':
                 acc.count('textroute_cases')
             texts = G.gen_inputs(rng, g, start, desc['inputs'])
+            runaway = 0
             for text in texts:
-                check_case(acc, case, text, {'mode': 'random', 'shard': desc['shard'], 'i': i, 'route': route})
+                t = check_case(acc, case, text, {'mode': 'random', 'shard': desc['shard'], 'i': i, 'route': route})
+                if t in ('exc:StepBudget', 'exc:RecursionError'):
+                    runaway += 1
+                    if runaway >= 2:
+                        break
         if i == 0:
             acc.sample({'grammar': L.grammar_text(g), 'start': starts[0], 'inputs': texts})
 
@@ -171,8 +178,13 @@ def run_exhaustive(desc, acc):
                           f'building the model failed: {case.build_error}',
                           {'grammar': L.to_json(g), 'grammar_text': L.grammar_text(g)})
             continue
+        runaway = 0
         for text in inputs:
-            check_case(acc, case, text, {'mode': 'exhaustive', 'idx': idx})
+            t = check_case(acc, case, text, {'mode': 'exhaustive', 'idx': idx})
+            if t in ('exc:StepBudget', 'exc:RecursionError'):
+                runaway += 1
+                if runaway >= 2:
+                    break
         if idx == desc['shard']:
             acc.sample({'grammar': L.grammar_text(g), 'inputs': f'all {len(inputs)} strings over '
                         f'{EXH_ALPHABET!r} up to length {EXH_MAXLEN}'})
